@@ -200,12 +200,16 @@ def check_program(es5, Node, src, with_comments=False):
     return probs
 
 
-SEPS = [' ', '\n', '\r\n', ' /*c*/ ', ' /*a\u2028b\u2029*/ ', '\r', ' /*a\nb*/ ', '  // x\n', '\t', '\n\n   ']
+SEPS = [' ', '\n', '\r\n', ' /*c*/ ', ' /*a\u2028b\u2029*/ ', '\r', ' /*a\nb*/ ', '  // x\n', '\t', '\n\n   ', ' /*\n\r*/ ', ' /*\r\r\n\n\r*/ ',
+        '\n\r']
 
 
 def main(run, tier):
     from . import parsefwd
     parsefwd.add(run, tier, positions=True)
+    # positions are counted with the lexer's line-terminator patterns: their obligations (C06) are imported
+    from . import c06 as _c06
+    _c06.class_obligations(run, importlib.import_module('calmjs.parse.lexers.es5'))
     es5 = importlib.import_module('calmjs.parse.parsers.es5')
     asttypes = importlib.import_module('calmjs.parse.asttypes')
     g = core.G()
